@@ -43,16 +43,8 @@ def stepSingle (s : State) (w : List String) : Option State :=
     match k.toNat?, v.toNat? with
     | some k, some v => some (step s (.ready k v))
     | _, _ => none
-  | ["poll", j] =>
-    match j.toNat? with
-    | some j => if raceAt s j then none else some (step s (.poll j false))
-    | none => none
-  | ["poll", j, c] =>
-    match j.toNat?, c with
-    | some j, "a" => some (step s (.poll j false))
-    | some j, "f" => some (step s (.poll j true))
-    | _, _ => none
-  | ["idle"] => some (runIdle false (s.tasks.length + 1) s)
+  | ["poll", j] => j.toNat?.map fun j => step s (.poll j)
+  | ["idle"] => some (runIdle (s.tasks.length + 1) s)
   | ["clear"] => some (step s .clear)
   | ["obs"] => some s
   | _ => none
